@@ -108,7 +108,77 @@ def zero_guard_rule(ctx: Ctx, model, rid: str, why: str) -> None:
 
 
 def columns_of(model, fi, consts: Dict[str, Any]) -> Dict[str, Dict[str, sp.Expr]]:
-    """{matrix name: {row block: term}} stored by one `_add_*` function in one configuration."""
+    """{matrix name: {row block: term}} stored by one `_add_*` function in one configuration: by interpreting the function
+    on a small matrix stand-in (helpers, slice objects and offset tables included); by reading its stores when that fails."""
+    try:
+        return _columns_by_interpretation(model, fi, consts)
+    except AnalysisError:
+        return _columns_by_shape(model, fi, consts)
+
+
+def _columns_by_interpretation(model, fi, consts: Dict[str, Any]) -> Dict[str, Dict[str, sp.Expr]]:
+    from ..miniinterp import InterpRaise, Mini, module_globals
+    from ..nplite import NP_STUBS, Mat, NArr
+    test = consts.get("test")
+    n_w = 2
+    ws = [sp.Symbol(f"w{r}", positive=True) for r in range(n_w)]
+    m = 2 * n_w if test == "complex" else n_w
+    mats: Dict[str, Mat] = {}
+    args: Dict[str, Any] = {}
+    for a in fi.node.args.args:
+        nm = a.arg
+        if nm in ("A", "A_re", "A_im"):
+            mats[nm] = args[nm] = Mat(m if nm == "A" else n_w, 6)
+        elif nm == "w":
+            args[nm] = NArr(ws)
+        elif nm == "tau":
+            args[nm] = TAU
+        elif nm == "taus":
+            args[nm] = NArr([TAU])
+        elif nm == "i":
+            args[nm] = 2
+        elif nm in consts:
+            args[nm] = consts[nm]
+        else:
+            raise AnalysisError(f"{fi.qual}: parameter {nm} has no stand-in")
+    if not mats:
+        raise AnalysisError(f"{fi.qual}: no matrix parameter")
+    st = dict(NP_STUBS)
+    st.update({"NDArray": None, "float64": float, "complex128": complex, "pi": sp.pi})
+    g = module_globals(model.repo.modules[fi.module].tree, st)
+    g.update(st)
+    try:
+        Mini(g, max_steps=100000).call_function(fi.node, args)
+    except InterpRaise as e:
+        raise AnalysisError(f"{fi.qual}: raises {e.kind} on the matrix stand-in")
+    out: Dict[str, Dict[str, sp.Expr]] = {}
+    for nm, M in mats.items():
+        cols = {c for _, c in M.written}
+        if len(cols) > 1:
+            raise AnalysisError(f"{fi.qual}: writes {len(cols)} columns of {nm} in one call")
+        for c in cols:
+            rows = sorted(r for r, c2 in M.written if c2 == c)
+            blocks: Dict[str, List[int]] = {}
+            for r in rows:
+                if nm == "A":
+                    blk = ("re" if r < n_w else "im") if test == "complex" else ("re" if test == "real" else "im")
+                else:
+                    blk = "re" if nm == "A_re" else "im"
+                blocks.setdefault(blk, []).append(r)
+            for blk, rs in blocks.items():
+                if len(rs) != n_w:
+                    raise AnalysisError(f"{fi.qual}: only rows {rs} of the {blk} block of {nm} are written")
+                terms = set()
+                for r in rs:
+                    v = sp.sympify(M.cells[r][c])
+                    terms.add(sp.simplify(v.subs({ws[r % n_w]: W})))
+                if len(terms) != 1 or any(t.has(*ws) for t in terms):
+                    raise AnalysisError(f"{fi.qual}: the rows of the {blk} block of {nm} do not hold one term of their own frequency: {terms}")
+                out.setdefault(nm, {})[blk] = terms.pop()
+    return out
+
+
+def _columns_by_shape(model, fi, consts: Dict[str, Any]) -> Dict[str, Dict[str, sp.Expr]]:
     out: Dict[str, Dict[str, sp.Expr]] = {}
     interp = _interp(model, consts)
     ti = interp._interp(fi, 0)
@@ -506,11 +576,12 @@ def _rhs(ctx: Ctx, model) -> None:
         ctx.violation("R7.2", "least_squares:b-vector", LS, bv.node, f"b vector blocks {got} do not pair the real/imaginary part of the immittance with the matching rows of A")
     sc = model.fi(MI, "_scale_A_matrices")
     ctx.instance("R7.2", "matrix_inversion: every column of A_re and A_im is divided by |X_exp|, and so are the right-hand sides")
-    from ..prov import Resolver as _Res
-    _rs = _Res(sc.node)
+    from ..prov import Resolver as _Res, inlined_function as _inl
+    sc_node = _inl(model, sc)  # helper functions and procedures of the module are seen through
+    _rs = _Res(sc_node)
     ok = True
     for M in ("A_re", "A_im"):
-        divs = [n for n in walk_ordered(sc.node) if isinstance(n, ast.AugAssign) and isinstance(n.op, ast.Div)
+        divs = [n for n in walk_ordered(sc_node) if isinstance(n, ast.AugAssign) and isinstance(n.op, ast.Div)
                 and norm(n.target.value if isinstance(n.target, ast.Subscript) else n.target) == M]
         good_m = False
         for dv in divs:
